@@ -311,6 +311,16 @@ fn unop(op: &str, args: &[&str]) -> String {
         "nt_is_positive" => show_bool(num_traits::Signed::is_positive(&dec(args[0]))),
         "nt_is_negative" => show_bool(num_traits::Signed::is_negative(&dec(args[0]))),
         "default_mode" => format!("MODE {:?}", RoundingMode::default()),
+        #[cfg(fpdec_verif)]
+        "h_mul" => { let (h, l) = fpdec_core::verif_hooks::u128_mul_u128(args[0].parse().unwrap(), args[1].parse().unwrap()); format!("PAIRU {} {}", h, l) }
+        #[cfg(fpdec_verif)]
+        "h_msb" => format!("INT {}", fpdec_core::verif_hooks::u128_msb(args[0].parse().unwrap())),
+        #[cfg(fpdec_verif)]
+        "h_idiv64" => { let (h, l, r) = fpdec_core::verif_hooks::u256_idiv_u64(args[0].parse().unwrap(), args[1].parse().unwrap(), args[2].parse().unwrap()); format!("TRIPLE {} {} {}", h, l, r) }
+        #[cfg(fpdec_verif)]
+        "h_special" => { let (h, l, r) = fpdec_core::verif_hooks::u256_idiv_u128_special(args[0].parse().unwrap(), args[1].parse().unwrap(), args[2].parse().unwrap()); format!("TRIPLE {} {} {}", h, l, r) }
+        #[cfg(fpdec_verif)]
+        "h_idiv" => { let (h, l, r) = fpdec_core::verif_hooks::u256_idiv_u128(args[0].parse().unwrap(), args[1].parse().unwrap(), args[2].parse().unwrap()); format!("TRIPLE {} {} {}", h, l, r) }
         _ => "BADOP".to_string(),
     }
 }
